@@ -64,7 +64,36 @@ CHECKS = {
         technique="TLC model checking of Session.tla with fault budget + fault-scripted replay against p9.Server"),
 }
 
+CONN_NOTE = ("Trusted base: TLC; the transcription of handleRequest/StartTag/ClearTag/WaitTag/send in spec/ConnLoop.tla; "
+             "lib/bigstep.py (folds TLC's explored graph into quiescent steps); quiescence judged by an idle window and "
+             "confirmed once with a longer one. Bounded: 3 requests per configuration.")
+
+CHECKS["C06"] = dict(
+    engine="connloop", category="model_checking", note=CONN_NOTE,
+    text=("TLC checks on ConnLoop.tla, for all interleavings of the handler goroutines of one connection, that each accepted "
+          "request gets at most one reply written as one contiguous frame, that nothing unsolicited is sent, that a receiver "
+          "exists whenever the connection is up (a blocked handler never stops intake) and - as liveness under weak fairness - "
+          "that every request whose backend call is released is eventually answered, incl. duplicate tags, tag re-use right "
+          "after the reply, undecodable frames and self/idle flushes. Every stimulus script of the bounded configurations is "
+          "run against the real server with gated backend calls and its observations must be a path of TLC's graph; batches "
+          "of 64 concurrent replies check contiguity under the real scheduler."),
+    ref="DESIGN.md section 5 C06, section 3.6",
+    technique="TLC model checking of ConnLoop.tla (safety + liveness) + big-step conformance of gated schedules + concurrent batches")
+CHECKS["C14"] = dict(
+    engine="connloop", category="model_checking", note=CONN_NOTE,
+    text=("TLC checks FlushAfterStop on ConnLoop.tla (an Rflush is on the wire only when every request that was executing "
+          "when the flush was handled has left the backend), immediate answers for idle/answered/own tags and that flushes "
+          "never suppress or duplicate replies (AtMostOneReply + EventuallyAnswered), for single, chained, repeated flushes; "
+          "all orders of {request blocked in backend, flush arrival(s), release, hang-up} are replayed with the backend call "
+          "of the flushed read/write/walk/mkdir/rename held at a gate."),
+    ref="DESIGN.md section 5 C14, section 3.6",
+    technique="TLC model checking of ConnLoop.tla + big-step conformance of flush schedules with gated backend calls")
+
 ENGINES = [
+    {"name": "connloop", "path": "spec/ConnLoop.tla + spec/MC_ConnLoop.tla + lib/bigstep.py + harness/cmd/connsched",
+     "serves_properties": ["C06", "C14"],
+     "kind_free_text": "small-step TLA+ spec of the connection loop; TLC's explored graph folded into quiescent big steps; "
+                       "stimulus scripts executed against the real server with gated backend calls"},
     {"name": "session", "path": "spec/Session.tla + spec/MC_Session.tla + harness/cmd/sessionreplay",
      "serves_properties": ["C04", "C05", "C08", "C09", "C15"],
      "kind_free_text": "explicit TLA+ spec model-checked by TLC; TLC emits every explored edge with a witness history; "
